@@ -7,9 +7,13 @@ SPEC = dict(
              n={"quick": 400, "thorough": 15000}, shard=100),
         dict(cmd="obs_cluster", imports=["Model.Cluster"], case_type="Cluster.case", check="Cluster.check_case",
              args=["-prop", "C28", "-kinds", "do,multi"],
-             n={"quick": 300, "thorough": 10000}, shard=100),
+             n={"quick": 400, "thorough": 10000}, shard=100),
     ],
-    rule="failure sequences of 0-6 scripted reactions per request (LOADING, error reply, connection closed before / after execution, "
+    rule="ENUMERATED on every run (obs_cluster, 288 cases independent of the seed): the do and multi tables of C19 / C20, and for cluster DoMulti a member whose "
+         "first reply is MOVED / ASK followed by k = 1..4 x {LOADING, TRYAGAIN, CLUSTERDOWN, connection closed after execution}, then a value, under RetryDelay "
+         "policies {always 0, declines at attempts >= 2, >= 3, negative at once}: the re-send after every retry-class failure must be preceded by a consultation "
+         ">= 0, and the attempt number of every consultation must be 1 + the number of retry rounds of the call so far (rounds read off the arrival log; "
+         "cluster do: 1, 2, 3, …). RANDOM in addition: failure sequences of 0-6 scripted reactions per request (LOADING, error reply, connection closed before / after execution, "
          "truncated reply; cluster: MOVED, ASK, TRYAGAIN, CLUSTERDOWN) x RetryDelay tables (0, 1µs, negative, 1h) x DisableRetry x "
          "read-only / ToRetryable / plain write commands x context modes (none, deadline, cancelled before the call, cancelled inside "
          "the first retry decision) x synchronous / pipelined path, for single, sentinel, standalone (EnableRedirect) and cluster clients, "
